@@ -90,7 +90,7 @@ CLAIMS['C04'] = dict(cat='exploration', ref='DESIGN.md §3.4, §4', tech=SEQ_TEC
     note=SEQ_NOTE + 'Scans under interleavings and "eventually freed exactly once" beyond the two-operation scenarios are not covered (QSBR reclamation itself: C05/C06).')
 CLAIMS['C14'] = dict(cat='exploration', ref='DESIGN.md §3.4, §4', tech=SEQ_TECH,
     text='After every explored schedule a sweep (get of every key, insert+remove next to every key) must complete within the unwinding bound of the restart loops, i.e. no node or root lock is left held by either operation. '
-         'Allocation failures: every structural case of C08 on the olc_db (one registered thread) with each of its allocations failing in turn (position enumerated), followed by the same sweep.',
+         'Allocation failures: every structural case of C08 on the olc_db (one registered thread) with each of its allocations failing in turn (position enumerated), followed by the same sweep. Scans: the concurrent-scan scenarios of C09 (reverse scan quick, all thorough) must return within the bound of their descent/restart loops.',
     note=SEQ_NOTE + 'Deadlock-freedom proper (wait cycles of three or more threads) is NOT decided by this check; allocation failures are not combined with preemptions.')
 CLAIMS['C05'] = dict(cat='exploration', ref='DESIGN.md §3.4, §4', tech=SEQ_TECH + '; QSBR state word kernels: SAT over all 64-bit words',
     text='(a) SAT: every state-word transition function for ALL 64-bit words satisfying the invariant (release and assertion-enabled IR). (b) Exhaustive within its bound: 16 scripted 3-4 thread programs in which one call '
